@@ -519,6 +519,8 @@ impl<S> Env<S> {
             .await?;
 
         loop {
+            #[cfg(feature = "verif-hooks")]
+            crate::verif_hooks::preemption_point().await;
             if let Some((pid, state)) = self.system.wait(target)? {
                 self.jobs.update_status(pid, state);
                 return Ok((pid, state));
@@ -693,6 +695,8 @@ impl<S> Env<S> {
 
 pub mod alias;
 pub mod any;
+#[cfg(feature = "verif-hooks")]
+pub mod verif_hooks;
 pub mod builtin;
 pub mod decl_util;
 pub mod function;
